@@ -490,6 +490,9 @@ def run(model, tier="quick"):
                   "deposit: impact split pro rata to the deposited values; each side minted with its own in-price",
                   opaque=["getPriceImpactUsd", "calc_token_amount", "get_gm_price"])
     res.floor("obligations", len(res.obligations), 35)
+    # constructors establish the relations between fields that the references above take for granted
+    from .ctor_refs import constructors
+    res.units["constructor_references"] = constructors(res, model, ('gmx2', 'market'))
     from ..rules.fresh import fresh_rule
     if "R-FRESH" not in res.rules:
         res.rules.append("R-FRESH")
